@@ -132,6 +132,23 @@ def first_inner_call(body, with_provider_only=False):
     return "?", [], ""
 
 
+def lock_aliases(cdir):
+    """names of argument-less helper functions of the convenience layer whose body is exactly
+    `TZ_PROVIDER.lock().map_err(|_| TemporalError::general("…"))` - taking the lock, nothing else"""
+    out = []
+    for root, _, files in os.walk(cdir):
+        for f in files:
+            if not f.endswith(".rs"):
+                continue
+            src = strip_comments(open(os.path.join(root, f)).read())
+            for m in re.finditer(r"\bfn\s+(\w+)\s*\(\s*\)\s*->[^{;]*\{", src):
+                b0 = m.end() - 1
+                body = re.sub(r"\s+", "", src[b0 + 1:match_brace(src, b0)])
+                if re.fullmatch(r'TZ_PROVIDER\.lock\(\)\.map_err\(\|_\|TemporalError::general\("[^"]*"\)\)', body):
+                    out.append(m.group(1))
+    return out
+
+
 def lean_str(s):
     return '"' + s.replace("\\", "\\\\").replace('"', '\\"') + '"'
 
@@ -146,6 +163,7 @@ def main():
     cdir = os.path.join(REPO, "src", "builtins", "compiled")
     # only the files that are modules of the crate (`mod x;` in compiled/mod.rs) are part of the build
     declared = set(re.findall(r"\bmod\s+(\w+)\s*;", strip_comments(open(os.path.join(cdir, "mod.rs")).read())))
+    aliases = lock_aliases(cdir)
     for root, _, files in os.walk(cdir):
         for f in sorted(files):
             if not f.endswith(".rs") or f == "tests.rs":
@@ -155,7 +173,9 @@ def main():
             src = open(os.path.join(root, f)).read()
             src = src.split("\nmod tests {")[0]
             for ty, name, params, has_self, body in parse_fns(src):
-                if "TZ_PROVIDER" not in body:
+                # the wrapper takes the shared provider: directly, or through a helper of this layer whose whole
+                # body is the lock expression (checked in lock_aliases)
+                if "TZ_PROVIDER" not in body and not any(re.search(r"\b" + a + r"\s*\(\s*\)", body) for a in aliases):
                     continue
                 callee, args, _ = first_inner_call(body, with_provider_only=True)
                 srcs = [arg_source(a, params) for a in args]
@@ -197,17 +217,25 @@ def main():
             for fm in re.finditer(r"\b(\w+)\s*:\s*other\s*\.\s*(\w+)", body):
                 if fm.group(1) not in ("Error",):
                     fields.append((ffi, fm.group(1), fm.group(2))); seen.add(fm.group(1))
-            # `ret.field = other.src…` / `this.field = other.src`
-            for fm in re.finditer(r"\b(?:ret|this)\s*\.\s*(\w+)\s*=\s*(?:Some\()?\s*other\s*\.\s*(\w+)", body):
-                fields.append((ffi, fm.group(1), fm.group(2))); seen.add(fm.group(1))
-            # `let field = … other.src …;` used by shorthand `field,`
-            for fm in re.finditer(r"\blet\s+(\w+)\s*=\s*if\s+other\s*\.\s*(\w+)", body):
-                if fm.group(1) not in seen:
-                    fields.append((ffi, fm.group(1), fm.group(2))); seen.add(fm.group(1))
-            # `if let Some(x) = other.src.into() { ret.field = … }`
-            for fm in re.finditer(r"if\s+let\s+Some\((\w+)\)\s*=\s*other\s*\.\s*(\w+)[^{]*\{\s*ret\s*\.\s*(\w+)\s*=", body):
-                if fm.group(3) not in seen:
-                    fields.append((ffi, fm.group(3), fm.group(2))); seen.add(fm.group(3))
+            # `<local>.field = … other.src …` (any receiver name; helper calls such as `convert(other.src)?` allowed)
+            for fm in re.finditer(r"\b(?!other\b)(\w+)\s*\.\s*(\w+)\s*=(?!=)[^;]*?\bother\s*\.\s*(\w+)", body):
+                if fm.group(2) not in seen:
+                    fields.append((ffi, fm.group(2), fm.group(3))); seen.add(fm.group(2))
+            # locals bound from a field: `let x = … other.src …;` and `if let Some(x) = … other.src … {`
+            local = {}
+            for fm in re.finditer(r"\blet\s+(?:mut\s+)?(?:Some\(\s*)?(\w+)\s*\)?\s*(?::[^=;]+)?=(?!=)([^;{]*?\bother\s*\.\s*(\w+)[^;{]*)[;{]", body):
+                local.setdefault(fm.group(1), fm.group(3))
+            # … used by the shorthand `Self { x, … }`, by `field: x` or by `<local>.field = … x …`
+            for x, src in local.items():
+                for fm in re.finditer(r"[{,]\s*%s\s*(?=[,}])" % re.escape(x), body):
+                    if x not in seen:
+                        fields.append((ffi, x, src)); seen.add(x)
+                for fm in re.finditer(r"\b(\w+)\s*:\s*(?:Some\(\s*)?%s\b" % re.escape(x), body):
+                    if fm.group(1) not in seen and fm.group(1) not in ("Error",):
+                        fields.append((ffi, fm.group(1), src)); seen.add(fm.group(1))
+                for fm in re.finditer(r"\b(?!other\b)(\w+)\s*\.\s*(\w+)\s*=(?!=)[^;]*?\b%s\b" % re.escape(x), body):
+                    if fm.group(2) not in seen:
+                        fields.append((ffi, fm.group(2), src)); seen.add(fm.group(2))
     # core enum variants
     core_src = ""
     for root, _, files in os.walk(os.path.join(REPO, "src")):
